@@ -236,7 +236,7 @@ def descRV (heap : List (Nat × Runtime.Obj)) : Nat → Runtime.RV → Json
     | .slice l => sl l
     | .anon ptr ctor => objJ ptr 0 { ctor := ctor, args := [] }
     | .ref ptr n => match heap.lookup n with
-      | some o => objJ ptr n o
+      | some o => objJ ptr (if o.ctor == "" then 0 else n) o     -- objects not made by a fixture constructor are anonymous
       | none => Json.mkObj [("k", "dangling")]
 
 def rtResult (st : Runtime.St) (r : Except String Runtime.RV) : Json :=
